@@ -30,6 +30,8 @@ func checkC09(c *Ctx) {
 	c.Rule("C09-R5", "every control string the screen emits, for every ECMA-48-family database entry, tokenizes as complete control sequences with numeric parameters and no residue")
 	c.Rule("C09-R6", "integer arguments of TParm calls in the screen are provably non-negative")
 	c.Rule("C09-R7", "go-runewidth's EastAsianWidth is switched off at init unless RUNEWIDTH_EASTASIAN is set; no other store to that condition")
+	c.Rule("C09-R8", "TPuts removes every terminated padding specification with exactly its delimiters (so that no $<…> residue reaches the terminal from the database strings, which the emission check strips the same way)")
+	c.Expect("C09-R8", 6)
 	c.Expect("C09-R1", 1)
 	c.Expect("C09-R2", 2)
 	c.Expect("C09-R3", 3)
@@ -59,6 +61,7 @@ func checkC09(c *Ctx) {
 	c09Emissions(c, p)
 	c09Args(c, p)
 	c09Runewidth(c, p)
+	tputsSegmentsRule(c, p, "C09-R8")
 }
 
 func c09Encapsulation(c *Ctx, p *Prog) {
